@@ -361,7 +361,7 @@ def replay(chk, h, c):
                 worst = max(worst, (np.abs(E - W) / np.maximum(1.0, np.abs(W))).max())
         # for a nilpotent matrix the real estimators never ask for scaling (A^8 = 0): the scaled branches are confirmed on anti-Hermitian
         # matrices (unitary exponential, perfectly conditioned) whose norm makes the real code take s = 1..4
-        for nrm in (0.5, 1.5, 3.0, 6.0, 12.0, 24.0, 48.0):
+        for nrm in (0.5, 1.5, 3.0, 6.0, 12.0, 24.0, 48.0, 150.0, 400.0, 1000.0):
             for n_ in (2, 3, 4, 6):
                 X = rng.uniform(-1, 1, (n_, n_)) + 1j * rng.uniform(-1, 1, (n_, n_))
                 X = X - X.conj().T
@@ -418,15 +418,16 @@ def main(tier):
     # ell(B,13) is always scripted as 0: with est <= ||B||_1^27, alpha <= ||B||_1^26 / (C(54,27) 55!) < 2^-53 whenever ||B||_1 < 300, and the property's domain ends at ~50
     scripts = [('all estimates tiny -> order 3', [1e-20], []), ('order 3 vetoed by ell -> order 5', [1e-20], [1, 0]), ('order 5 by the norms', [1e-6, 1e-4, 1e-4], []),
                ('order 7', [0.5], []), ('order 7 vetoed by ell -> order 9', [0.5], [1, 0]), ('order 9 by the norms', [1.0], []), ('order 13, s=0', [1e3], []), ('order 13, s=1', [1e7], []),
-               ('order 13, s=2', [1e9], []), ('orders 7 and 9 vetoed by ell -> order 13, s=0', [0.05], [1, 1, 0])]
+               ('order 13, s=2', [1e9], []), ('orders 7 and 9 vetoed by ell -> order 13, s=0', [0.05], [1, 1, 0]),
+               ('order 13, s=6 (norm ~200)', [200.0 ** 8], []), ('order 13, s=8 (norm ~800)', [800.0 ** 8], [])]
     if tier == 'thorough':
-        scripts += [('order 13, s=3', [1e12], []), ('order 13, s=4', [1e14], []), ('orders 3,5,7,9 all vetoed by ell -> order 13, s=0', [1e-20], [1, 1, 1, 1, 0]), ('order 13, s=5', [1e17], [])]
+        scripts += [('order 13, s=3', [1e12], []), ('order 13, s=4', [1e14], []), ('orders 3,5,7,9 all vetoed by ell -> order 13, s=0', [1e-20], [1, 1, 1, 1, 0]), ('order 13, s=5', [1e17], []), ('order 13, s=7', [400.0 ** 8], []), ('order 13, s=10 (norm ~3000)', [3000.0 ** 8], [])]
     for nm, norms, ells in scripts:
         items.append(('glue', nm, norms, ells, tier))
     items.append(('utransform', 3, 2, tier))
     items.append(('utransform', 2, 4, tier))
     chk.cov['bounds'] = {'Pade tables': 'orders 3,5,7,9,13 on a symbolic complex number (1x1 matrix), even powers formed by zgemm as in the library', 'estimator guard': 'n=2..6, t and itmax symbolic 32-bit, matrix symbolic',
-                         'order selection/scaling/squaring': 'A = bidiagonal nilpotent 7x7 with 12 symbolic real parameters; the norm estimators and ell are stubs returning scripted values that drive every order 3,5,7,9,13 and scaling exponents s=0..3 (thorough: ..4)', 'dispatch': 'n=2..6, all 2n^2 real entries symbolic (diamonds merged): shortcut iff diagonal; estimator reached iff not', 'UTransform': 'd in %s, A, V, scale symbolic, exponential summarised by an arbitrary matrix; two histories with a previous call in another dimension' % (
+                         'order selection/scaling/squaring': 'A = bidiagonal nilpotent 7x7 with 12 symbolic real parameters; the norm estimators and ell are stubs returning scripted values that drive every order 3,5,7,9,13 and scaling exponents s=0,1,2,6,8 (thorough: 0..8, 10), i.e. norms up to the ~1e3 the property allows for normal matrices', 'dispatch': 'n=2..6, all 2n^2 real entries symbolic (diamonds merged): shortcut iff diagonal; estimator reached iff not', 'UTransform': 'd in %s, A, V, scale symbolic, exponential summarised by an arbitrary matrix; two histories with a previous call in another dimension' % (
                              '2..4' if tier == 'quick' else '2..6')}
     chk.cov['domains'] = ['R (exact reals); exp/sin/cos atoms for the diagonal shortcut', 'bit-vectors for (t, itmax)']
     chk.cov['stubs'] = ['GSL containers, zgemm, complex LU with partial pivoting: shim', 'exact_1_norm / one_normest_matrix_power / one_normest_product / ell: scripted return values when deciding the selection/scaling/squaring glue (the identity checked holds for every estimate)', 'one_normest_core summarised (arguments logged) when deciding the dispatch', 'matrix_exponential summarised (argument logged, result = fresh symbols) when deciding UTransform']
